@@ -145,6 +145,12 @@ impl Watch {
         }
 
         if self.lenient {
+            // C17 without the protocol model: a kind this role may never receive is not delivered
+            let v_now = self.ep.version();
+            if v_now != 0 && !role_may_recv(self.role, v_now, kind) && !delivered.is_empty() {
+                self.flag(&["C17"], format!("forbidden-kind-accepted/{}", kind_name(kind)), format!("{what} (fixed header {:#04x}): role {:?} v{} delivered {}", frame[0], self.role, v_now, evs_short(evs)));
+                return;
+            }
             let allowed = self.m.ids.clone();
             self.common(evs, Ctx { allowed, st_before: Some(st_before), what, ..Default::default() });
             self.lenient_resync();
